@@ -16,7 +16,9 @@ EXT_LANG = {".c": "c", ".h": "c", ".go": "go", ".java": "java", ".js": "javascri
 LANG_EXT = {"c": ".c", "go": ".go", "java": ".java", "javascript": ".js", "php": ".php", "python": ".py",
             "typescript": ".ts"}
 
-MAX_CORPUS_BYTES_QUICK = 64 * 1024      # one 175 kB Java file needs about a minute: thorough tier only
+MAX_CORPUS_BYTES_QUICK = 512 * 1024
+# needs about a minute of lowering (175 kB of nested string concatenation): thorough tier only
+SLOW_CORPUS_FILES = frozenset(["lang_parser/java/DeepStringConcat.java"])
 MAX_MUTATION_BASE_BYTES = 12 * 1024
 
 
@@ -132,7 +134,18 @@ PY = Spec(
             ["{v} += {m}"], ["{v}, {v} = {m}, {m}"], ["assert {v} == {m}"], ["del {v}"], ["{v} = {v}.g({m}).h"],
             ["{v} = not {v} and {m} < {v}"], ["{v} = f'{{{v}}} {m}'"], ["{v} = [a for a in {v} if a > {m}]"],
             ["{v} = ({m}, *{v})"], ["{v}: int = {m}"], ["import os.path, sys"], ["from a.b import c as d"], ["pass"],
-            ["raise ValueError({m})"], ["{v} = {v}[{m}:{m}]"], ["{v} = mark(k={m}, *{v}, **{v})"]],
+            ["raise ValueError({m})"], ["{v} = {v}[{m}:{m}]"], ["{v} = mark(k={m}, *{v}, **{v})"],
+            ["{v}.f += {m}"], ["{v}[{m}] += {m}"], ["{v}.f.g[{m}] = {v}"], ["del {v}[{m}], {v}.f"], ["{v} = {{k: {m} for k in {v}}}"],
+            ["{v} = {{a for a in {v}}}"], ["{v} = sum(a * {m} for a in {v})"], ["{v} = {m} < {v} <= {m}"], ["{v} = -{v} ** {m} // {m}"],
+            ["if ({v} := {m}) > {v}: pass"], ["{v} = [*{v}, {m}]"], ["{v} = {{**{v}, 'k': {m}}}"], ["{v} = lambda *a, k={m}, **kw: (a, k)"],
+            ["{v} = {v}({m})({m})"], ["{v} = b'bytes' + bytes({m})"], ["{v} = r'\\d+' 'cat' f'{{{v}!r:>{{{m}}}}}'"], ["{v} = ..."],
+            ["{v} = await {v}.g({m})"], ["{v} = yield {m}"], ["{v} = {v} if {v} is not None else {v} or {m}"], ["{v} = ({m},)"],
+            ["{v} = [[{m}, {v}], [{v}, {m}]][{m}][{m}]"], ["print(*{v}, sep='', end={m})"], ["{v} = {v} @ {v}"], ["{v} = ~{v} & {m} | {v} ^ {m} << {m}"],
+            ["{v}: list[int] = []"], ["{v} = type({v})({m})"], ["global {v}"], ["from . import sibling"], ["from .. import *"], ["import a.b.c as abc"],
+            ["{v} = '''multi", "line {m}'''"], ["{v} = ({m} +", "    {m})"], ["return {v}"], ["{v} = not {v}"], ["*{v}, {v} = {v}"], ["({v}, {v}), {v} = {v}"],
+            ["{v} = [a + b for a in {v} for b in {v} if a if b > {m}]"], ["{v} = {v}[::{m}]"], ["{v} = {v}[{m}, {m}:]"], ["assert {v}, 'm{m}'"],
+            ["raise ValueError({m}) from {v}"], ["raise"], ["{v} = __name__ == '__main__'"], ["exec('{v} = {m}')"], ["nonlocal_{v} = {m}"]],
+
     compound=[["if {v} < {m}:", "{b}"], ["if {v} < {m}:", "{b}", "else:", "{b}"],
               ["if {v}:", "{b}", "elif {v} == {m}:", "{b}", "else:", "{b}"],
               ["while {v} < {m}:", "{b}"], ["while {v}:", "{b}", "else:", "{b}"], ["for {v} in range({m}):", "{b}"],
@@ -141,8 +154,21 @@ PY = Spec(
               ["try:", "{b}", "finally:", "{b}"], ["with open({m}) as {v}:", "{b}"],
               ["match {v}:", "    case {m}:", "    {b}", "    case _:", "    {b}"],
               ["def inner{n}(a, b={m}, *c, d, **e):", "{b}", "    return a"],
-              ["class Inner{n}:", "    k = {m}", "    def m(self, a):", "    {b}"]],
+              ["class Inner{n}:", "    k = {m}", "    def m(self, a):", "    {b}"],
+              ["async def ainner{n}():", "    async for a in {v}:", "    {b}", "    async with {v} as b, {v}:", "    {b}"],
+              ["with open({m}) as {v}, open({m}) as {v}:", "{b}"], ["with {v}:", "{b}"],
+              ["for {v} in {v}:", "    if {v} > {m}:", "        continue", "{b}", "    break"],
+              ["try:", "{b}", "except (ValueError, TypeError):", "{b}", "except:", "{b}"],
+              ["match {v}:", "    case [{m}, a, *rest] if a > {m}:", "    {b}", "    case {{'k': {m}, **kw}}:", "    {b}", "    case Point(x={m}) | None:", "    {b}", "    case str() as s:", "    {b}"],
+              ["def outer{n}():", "    {v} = {m}", "    def inner():", "        nonlocal {v}", "        global g", "    {b}", "    return inner"],
+              ["while True:", "{b}", "    if {v}: break"],
+              ["if {v}: {v} = {m}", "else: {v} = {m}"]],
     decls=[["def f{n}(a, b={m}):", "{b}", "    return a"], ["async def g{n}(a):", "{b}"],
+           ["def typed{n}(a: int, /, b: str = 's', *, c: 'T' = {m}) -> int:", "{b}"],
+           ["@dec", "@mod.dec2({m}, k={m})", "class Deco{n}(Base, metaclass=Meta):", "    '''doc'''", "    x: int = {m}", "    __slots__ = ('a',)", "    @property", "    def p(self):", "    {b}", "    @classmethod", "    def c(cls, a={m}):", "    {b}"],
+           ["class Gen{n}[T]:", "    def m(self) -> T: ..."], ["type Alias{n} = list[int]"],
+           ["if __name__ == '__main__':", "{b}"],
+           ["try:", "    import fast{n}", "except ImportError:", "    fast{n} = None"],
            ["@dec({m})", "def h{n}(*a, **k):", "{b}"],
            ["class C{n}(Base):", "    k = {m}", "    def __init__(self, a):", "        self.a = a", "    {b}",
             "    @staticmethod", "    def s(a):", "    {b}", "    def m(self):", "        return self.a + {m}"],
@@ -156,7 +182,16 @@ _JS_SIMPLE = [["mark({m});"], ["let {v}{n} = {m};"], ["{v} = {v} + {m};"], ["{v}
               ["{v} = {v}.g({m}).h;"], ["{v} = !{v} && {m} < {v};"], ["{v} = `${{{v}}} {m}`;"], ["[{v}, {v}] = [{m}, {m}];"],
               ["{v} = function (a) {{ return a + {m}; }};"], ["{v} = typeof {v} === 'number' ? {m} : {m};"],
               ["delete {v}.f;"], ["throw new Error({m});"], [";"], ["{v} = {v}?.f ?? {m};"], ["{v} = [...{v}, {m}];"],
-              ["{v} = await {v};"]]
+              ["{v} = await {v};"], ["const {{a: p{n}, b{n}, ...rest{n}}} = {v};"], ["({{a: {v}, b: {v} = {m}}} = {v});"], ["{v} = new Date;"],
+              ["{v}.f += {m};"], ["{v}[{m}]++;"], ["--{v}.f;"], ["{v}.f.g[{m}].h = {v};"], ["{v} = {v}.f?.[{m}]?.({m});"], ["{v} ??= {m};"], ["{v} ||= {m}; {v} &&= {m};"],
+              ["{v} = ({m}, {v});"], ["{v} = {m} ** {v} >>> {m};"], ["{v} = void {m};"], ["{v} = {v} in {v} || {v} instanceof Foo;"], ["{v} = /re{m}/gi.test({v});"],
+              ["{v} = {{a: {m}, 'b': {m}, {m}: {v}, m() {{ return {m}; }}, get g() {{ return {m}; }}, ...{v}}};"], ["{v} = [ , {m}, ...{v}];"], ["{v} = async (a) => {{ await a; }};"],
+              ["{v} = function* () {{ yield* {v}; }};"], ["{v} = class {{ m() {{ return {m}; }} }};"], ["{v} = new (foo())({m});"], ["{v} = new.target;"], ["{v} = import.meta.url;"],
+              ["{v} = tag`a${{{v}}}b${{{m}}}`;"], ["{v} = {v} ? {v} ? {m} : {m} : {m};"], ["{v} = ((a, b = {m}, ...c) => a + b)({m});"], ["mark({m}, ...{v});"], ["{v}.g({m}).h({m}).i;"],
+              ["var {v} = {m}, {v} = {m};"], ["let [a{n}, [b{n}, c{n} = {m}], ...d{n}] = {v};"], ["debugger;"], ["'use strict';"], ["{v} = {m}n + 0x{m}n;"], ["{v} = {v} == null;"],
+              ["return {v};"], ["{v} = !!{v};"], ["{v} = -{v};"], ["{v} = typeof {v};"], ["if ({v}) {v} = {m}; else {v} = {m};"], ["for (;;) break;"], ["while ({v}) {v}--;"],
+              ["export default {v};"], ["export {{ {v} as w{n} }};"], ["import * as ns{n} from 'm';"], ["import {{ a as b{n}, c{n} }} from './m';"], ["import 'side{n}';"],
+              ["{v} = super.m({m});"], ["{v} = this;"], ["{v} = arguments[{m}];"], ["{v} = {v}.#priv;"]]
 _JS_COMPOUND = [["if ({v} < {m}) {{", "{b}", "}}"], ["if ({v} < {m}) {{", "{b}", "}} else {{", "{b}", "}}"],
                 ["if ({v}) {{", "{b}", "}} else if ({v} == {m}) {{", "{b}", "}} else {{", "{b}", "}}"],
                 ["while ({v} < {m}) {{", "{b}", "}}"], ["do {{", "{b}", "}} while ({v} < {m});"],
@@ -165,23 +200,34 @@ _JS_COMPOUND = [["if ({v} < {m}) {{", "{b}", "}}"], ["if ({v} < {m}) {{", "{b}",
                 ["switch ({v}) {{", "    case {m}:", "    {b}", "        break;", "    default:", "    {b}", "}}"],
                 ["try {{", "{b}", "}} catch (e) {{", "{b}", "}} finally {{", "{b}", "}}"], ["try {{", "{b}", "}} finally {{", "{b}", "}}"],
                 ["lbl{n}: for (;;) {{", "{b}", "    break lbl{n};", "}}"], ["{{", "{b}", "}}"],
-                ["function inner{n}(a, b = {m}, ...c) {{", "{b}", "    return a;", "}}"]]
+                ["function inner{n}(a, b = {m}, ...c) {{", "{b}", "    return a;", "}}"],
+                ["for await (const e of {v}) {{", "{b}", "}}"], ["for (var i = {m}, j = {m}; i < j; i++, j--) {{", "{b}", "}}"], ["for ({v} in {v}) {{", "{b}", "}}"],
+                ["for (const [k, e] of Object.entries({v})) {{", "{b}", "}}"], ["outer{n}: while ({v}) {{", "    inner{n}: do {{", "    {b}", "        continue outer{n};", "    }} while ({v});", "}}"],
+                ["switch ({v}) {{", "    case {m}:", "    case {m}: {{", "    {b}", "    }}", "    default:", "}}"], ["switch ({v}) {{ }}"],
+                ["try {{", "{b}", "}} catch {{", "{b}", "}}"], ["try {{", "{b}", "}} catch ({{ message }}) {{", "{b}", "}}"],
+                ["if ({v}) {{", "{b}", "}} else if ({v}) {{", "}} else {{", "}}"], ["with ({v}) {{", "{b}", "}}"],
+                ["(function () {{", "{b}", "}})();"], ["(() => {{", "{b}", "}})();"], ["{v}.forEach(function (e, i) {{", "{b}", "}});"], ["{v}.then((r) => {{", "{b}", "}}).catch((e) => {{", "{b}", "}});"]]
 _JS_DECLS = [["function f{n}(a, b = {m}) {{", "{b}", "    return a;", "}}"], ["async function g{n}(a) {{", "{b}", "}}"],
              ["function* gen{n}() {{", "    yield {m};", "{b}", "}}"],
              ["class C{n} extends Base {{", "    k = {m};", "    static s = {m};", "    constructor(a) {{", "        super(a);", "    {b}", "    }}",
               "    m(a) {{", "    {b}", "        return a + {m};", "    }}", "    static sm() {{", "    {b}", "    }}",
               "    get p() {{ return {m}; }}", "}}"],
-             ["class D{n} {{}}"], ["const arrow{n} = (a, b) => {{", "{b}", "}};"]]
+             ["class D{n} {{}}"], ["const arrow{n} = (a, b) => {{", "{b}", "}};"],
+             ["class Priv{n} {{", "    #p = {m};", "    static #sp;", "    static {{", "    {b}", "    }}", "    set v(a) {{ this.#p = a; }}", "    async *ag() {{ yield {m}; }}", "    ['computed' + {m}]() {{", "    {b}", "    }}", "    static async sm(a, {{b, c = {m}}}, [d]) {{", "    {b}", "    }}", "}}"],
+             ["export default class {{", "    m() {{", "    {b}", "    }}", "}}"], ["export function ef{n}() {{", "{b}", "}}"], ["export async function* eg{n}() {{", "{b}", "}}"],
+             ["var fe{n} = function named{n}(a) {{", "{b}", "}};"], ["module.exports = {{ f{n}: function () {{ return {m}; }} }};"]]
 
 JS = Spec("javascript", simple=_JS_SIMPLE + [["import d{n} from './m.js';"], ["export const e{n} = {m};"]],
           compound=_JS_COMPOUND, decls=_JS_DECLS)
 
-# `this.f = ...` / `a[i] = ...` inside TypeScript are produced by dedicated templates (TS_WRITES) so that the
-# generator can step over a recorded finding.
-TS_FIELD_WRITE = [["{v}.f = {m};"], ["{v}[{m}] = {v};"]]
-_TS_SIMPLE = [t for t in _JS_SIMPLE if t not in TS_FIELD_WRITE] + [
+_TS_SIMPLE = _JS_SIMPLE + [
     ["let t{n}: number = {m};"], ["const u{n}: string[] = [];"], ["{v} = {v} as any;"], ["{v} = <number>{m};"],
-    ["let w{n}: Array<number> = [{m}];"], ["{v} = {v}!;"], ["type A{n} = number | string;"], ["declare const dc{n}: number;"]]
+    ["let w{n}: Array<number> = [{m}];"], ["{v} = {v}!;"], ["type A{n} = number | string;"], ["declare const dc{n}: number;"],
+    ["let tu{n}: [number, string?] = [{m}];"], ["let fnT{n}: (a: number) => void = (a) => {{}};"], ["let un{n}: 'a' | 'b' | {m} = {m};"], ["{v} = {v} satisfies object;"],
+    ["let gen{n} = new Map<string, number[]>();"], ["{v} = mark<number>({m});"], ["let ob{n}: {{ a: number; b?: string; [k: string]: any }} = {{ a: {m} }};"], ["{v} = {v}!.f!.g;"],
+    ["let ko{n}: keyof typeof {v};"], ["for (const e{n} of {v} as number[]) mark(e{n});"], ["let opt{n} = {v}?.f ?? ({m} as const);"], ["const enumv{n} = E.A;"],
+    ["let ar{n} = (a: number, b?: string): number => a + {m};"], ["let asr{n} = async <T,>(a: T): Promise<T> => a;"], ["type Fn{n}<T> = T extends string ? {m} : never;"],
+    ["declare function df{n}(a: number): void;"], ["import type {{ T{n} }} from './t';"], ["export type {{ X{n} }};"], ["let big{n}: bigint = {m}n;"], ["let x{n}: unknown = {v} as unknown as string;"]]
 TS = Spec("typescript", simple=_TS_SIMPLE, compound=_JS_COMPOUND + [
     ["function innerT{n}(a: number, b?: string): number {{", "{b}", "    return a;", "}}"]],
     decls=_JS_DECLS + [
@@ -190,7 +236,15 @@ TS = Spec("typescript", simple=_TS_SIMPLE, compound=_JS_COMPOUND + [
         ["class K{n}<T> implements I {{", "    private a: number = {m};", "    readonly b: string;", "    constructor(private c: number) {{", "    {b}", "    }}",
          "    m(x: number): number {{", "    {b}", "        return x;", "    }}", "}}"],
         ["abstract class AB{n} {{", "    abstract m(): void;", "}}"],
-        ["export function ex{n}(a: number): void {{", "{b}", "}}"]])
+        ["export function ex{n}(a: number): void {{", "{b}", "}}"],
+        ["namespace NS{n} {{", "    export const a = {m};", "    export function nf() {{", "    {b}", "    }}", "}}"], ["declare module 'm{n}' {{", "    export const a: number;", "}}"],
+        ["export default interface DI{n} extends A, B {{", "    readonly a: number;", "    new (x: number): DI{n};", "    <T>(y: T): T;", "    [k: string]: any;", "}}"],
+        ["const enum CE{n} {{ A = 'a', B = {m} }}"], ["export abstract class EA{n}<T> extends Base<T> implements I, J {{", "    protected abstract a: number;", "    static readonly s: string = 's';", "    declare d: number;", "    private constructor(public x: number, protected y?: string) {{", "        super();", "    {b}", "    }}",
+         "    get g(): number {{ return {m}; }}", "    set g(v: number) {{ this.x = v; }}", "    protected async m<U>(this: EA{n}<T>, a: U, ...r: number[]): Promise<void> {{", "    {b}", "    }}", "    m2?(): void;", "    @dec() dm(@inj() p: number) {{", "    {b}", "    }}", "}}"],
+        ["function ov{n}(a: number): number;", "function ov{n}(a: string): string;", "function ov{n}(a: any): any {{", "{b}", "    return a;", "}}"],
+        ["function guard{n}(a: unknown): a is string {{", "    return typeof a === 'string';", "}}"], ["function asrt{n}(a: unknown): asserts a {{", "{b}", "}}"],
+        ["@Component({{ selector: 's{n}' }})", "class Cmp{n} {{", "    @Input() a: number = {m};", "    constructor(private readonly svc: Svc) {{}}", "}}"],
+        ["let v{n} = {{ m(this: Window) {{ return {m}; }} }};"], ["export = ex{n};"], ["import req{n} = require('m');"], ["export * from './m{n}';"], ["export * as ns{n} from './m';"]])
 
 JAVA = Spec(
     "java",
@@ -200,7 +254,15 @@ JAVA = Spec(
             ["int[] b{n} = {{{m}, {m}}};"], ["String s{n} = \"s\" + {m};"], ["{v} = obj.g({m}).h;"], ["obj.f.g = {m};"],
             ["boolean q{n} = !({v} < {m}) && {v} == {m};"], ["{v} = (int) {m}L;"], ["throw new RuntimeException(\"{m}\");"],
             [";"], ["var l{n} = java.util.List.of({m});"], ["assert {v} > {m};"], ["Function<Integer,Integer> fn{n} = a -> a + {m};"],
-            ["{v} = obj instanceof String s{n} ? {m} : {m};"]],
+            ["{v} = obj instanceof String s{n} ? {m} : {m};"], ["this.f++;"], ["arr[{m}]++;"], ["obj.f += {m};"], ["arr[{v}] += {m};"], ["--{v};"], ["{v} = -{v} + ~{m};"],
+            ["{v} = {v} << {m} >>> {m} & {m};"], ["{v} <<= {m};"], ["char c{n} = 'c';"], ["long l{n} = {m}L; float fl{n} = 1.5f; double d{n} = {m}e2;"], ["int[][] mat{n} = new int[{m}][{m}];"],
+            ["mat[{m}][{m}] = {v};"], ["String tb{n} = \"\"\"", "    text {m}", "    \"\"\";"], ["Object an{n} = new Runnable() {{ public void run() {{ mark({m}); }} }};"],
+            ["Supplier<Integer> su{n} = Main::stat;"], ["list.forEach(System.out::println);"], ["BiFunction<Integer,Integer,Integer> bf{n} = (a, b) -> {{ return a + b + {m}; }};"],
+            ["{v} = switch ({v}) {{ case {m} -> {m}; case {m}, {m} -> {{ yield {m}; }} default -> {m}; }};"], ["List<String> gl{n} = new ArrayList<>();"], ["Map<String, List<Integer>> gm{n} = new HashMap<String, List<Integer>>({m});"],
+            ["{v} = obj.<Integer>gen({m});"], ["{v} = (obj).f.g.h({m})[{m}];"], ["{v} = Main.this.f;"], ["{v} = super.m({m});"], ["final int fi{n} = {m};"], ["return;"], ["int u{n};"], ["int a{n} = {m}, b{n} = a{n} + {m};"],
+            ["{v} = {v} > {m} ? {v} < {m} ? {m} : {m} : {m};"], ["{v} = (Integer) obj;"], ["{v} = ((String) obj).length();"], ["Class<?> k{n} = String.class;"], ["{v} = arr.length;"], ["new Thread(() -> mark({m})).start();"],
+            ["if ({v} > {m}) {v} = {m}; else {v} = {m};"], ["for (;;) break;"], ["while ({v} > {m}) {v}--;"], ["@SuppressWarnings(\"x\") int an{n} = {m};"], ["class Local{n} {{ int g = {m}; }}"], ["record LR{n}(int a) {{}}"],
+            ["{v} = obj == null ? {m} : obj.hashCode();"], ["String cc{n} = \"a\" + {v} + 'c' + {m} + null;"], ["{v} += {v}++ + ++{v};"], ["boolean bb{n} = {v} > {m} || {v} < {m} && !({v} == {m}) ^ true;"]],
     compound=[["if ({v} < {m}) {{", "{b}", "}}"], ["if ({v} < {m}) {{", "{b}", "}} else {{", "{b}", "}}"],
               ["if ({v} > {m}) {{", "{b}", "}} else if ({v} == {m}) {{", "{b}", "}} else {{", "{b}", "}}"],
               ["while ({v} < {m}) {{", "{b}", "}}"], ["do {{", "{b}", "}} while ({v} < {m});"],
@@ -209,16 +271,30 @@ JAVA = Spec(
               ["switch ({v}) {{", "    case {m} -> {{", "    {b}", "    }}", "    default -> {{", "    {b}", "    }}", "}}"],
               ["try {{", "{b}", "}} catch (Exception e) {{", "{b}", "}} finally {{", "{b}", "}}"],
               ["try (AutoCloseable c{n} = open({m})) {{", "{b}", "}}"], ["synchronized (this) {{", "{b}", "}}"],
-              ["lbl{n}: for (;;) {{", "{b}", "    break lbl{n};", "}}"], ["{{", "{b}", "}}"]],
+              ["lbl{n}: for (;;) {{", "{b}", "    break lbl{n};", "}}"], ["{{", "{b}", "}}"],
+              ["for (int i = {m}, j = {m}; i < j; i++, j--) {{", "{b}", "}}"], ["for (final String e : list) {{", "{b}", "}}"], ["for (var en : map.entrySet()) {{", "{b}", "}}"],
+              ["try {{", "{b}", "}} catch (IllegalStateException | IllegalArgumentException e) {{", "{b}", "}} catch (Exception e) {{", "{b}", "}}"], ["try {{", "{b}", "}} finally {{", "{b}", "}}"],
+              ["try (InputStream a = open(); OutputStream b = open2()) {{", "{b}", "}} catch (IOException e) {{", "{b}", "}}"],
+              ["switch ({v}) {{", "    case {m}: case {m}:", "    {b}", "    case {m}: {{", "    {b}", "    }}", "}}"], ["switch (obj) {{", "    case String s -> mark({m});", "    case Integer i when i > {m} -> {{", "    {b}", "    }}", "    default -> {{}}", "}}"],
+              ["outer{n}: while ({v} > {m}) {{", "    do {{", "    {b}", "        continue outer{n};", "    }} while ({v} < {m});", "}}"], ["if ({v} > {m}) {{", "}} else {{", "{b}", "}}"],
+              ["new Object() {{", "    void am() {{", "    {b}", "    }}", "}}.am();"], ["list.forEach(e -> {{", "{b}", "}});"], ["while (true) {{", "{b}", "    if ({v} > {m}) break;", "}}"]],
     decls=[["interface I{n} {{", "    int m(int a);", "    default int d() {{ return {m}; }}", "}}"],
            ["enum E{n} {{", "    A({m}), B({m});", "    private final int v;", "    E{n}(int v) {{ this.v = v; }}", "}}"],
            ["record R{n}(int a, String b) {{", "    int sum() {{ return a + {m}; }}", "}}"],
            ["@interface An{n} {{", "    int value() default {m};", "}}"],
            ["class P{n}<T extends Comparable<T>> extends Base implements I {{", "    static int s = {m};", "    int f = {m};", "    static {{", "    {b}", "    }}",
             "    {{", "    {b}", "    }}", "    P{n}(int a) {{", "        super(a);", "    {b}", "    }}", "    int m(int a, int... rest) throws Exception {{", "        int x = 0, y = 0, z = 0;", "    {b}",
-            "        return a;", "    }}", "    class In{n} {{ int g = {m}; }}", "}}"]],
+            "        return a;", "    }}", "    class In{n} {{ int g = {m}; }}", "}}"],
+           ["public final class Pub{n} {{", "    public static final String K = \"k\";", "    private volatile transient int a, b = {m}, c[];", "    protected List<Map<String, int[]>> g = new ArrayList<>();", "    public static void main(String[] args) {{", "        int x = 0, y = 0, z = 0;", "    {b}", "    }}",
+            "    abstract static class N{n} implements Comparable<N{n}> {{", "        abstract <T> T gm(T a);", "        public int compareTo(N{n} o) {{ return {m}; }}", "    }}",
+            "    enum Col {{ R, G {{ @Override int v() {{ return {m}; }} }}, B; int v() {{ return {m}; }} }}", "    interface Cb {{ void call(int a); }}", "    synchronized native void nat();", "    @Deprecated @SafeVarargs final <T> void va(T... a) {{", "    {b}", "    }}", "}}"],
+           ["sealed interface Sh{n} permits Ci{n}, Sq{n} {{}}", "record Ci{n}(double r) implements Sh{n} {{", "    Ci{n} {{", "        if (r < {m}) throw new IllegalArgumentException();", "    }}", "    static int cnt = {m};", "}}", "final class Sq{n} implements Sh{n} {{}}"],
+           ["enum Op{n} implements I {{", "    ADD(\"+\") {{", "        int ap(int a) {{ return a + {m}; }}", "    }};", "    final String s;", "    Op{n}(String s) {{ this.s = s; }}", "    abstract int ap(int a);", "    static {{", "    {b}", "    }}", "}}"],
+           ["@FunctionalInterface", "interface Fi{n}<T, R> extends Function<T, R> {{", "    R ap(T t);", "    static <T> Fi{n}<T, T> id() {{ return t -> t; }}", "    int K = {m};", "}}"],
+           ["@Retention(RetentionPolicy.RUNTIME)", "@Target({{ElementType.METHOD, ElementType.FIELD}})", "@interface Cfg{n} {{", "    String name() default \"n\";", "    int[] v() default {{{m}, {m}}};", "}}"],
+           ["class Gen{n}<K extends Comparable<? super K>, V> {{", "    private final Map<K, ? extends V> m = null;", "    <T extends K> V get(T k) throws IOException, RuntimeException {{", "        int x = 0, y = 0, z = 0;", "    {b}", "        return null;", "    }}", "}}"]],
     top_simple=[], top_compound=[],
-    header=["package p.q;", "import java.util.*;"],
+    header=["package p.q;", "import java.util.*;", "import static java.lang.Math.*;", "import java.util.function.Function;"],
     wrap_main=(["class Main{n} {{", "    int f;", "    int[] arr;", "    void main(int x, int y, int z, Object obj) {{"], ["    }}", "}}"]),
 )
 
@@ -228,19 +304,35 @@ GO = Spec(
             ["defer mark({m})"], ["go mark({m})"], ["{v}++"], ["{v} += {m}"], ["var v{n} int = {m}"], ["s{n} := []int{{{m}, {m}}}"],
             ["m{n} := map[string]int{{\"k\": {m}}}"], ["p{n} := &T{{a: {m}}}"], ["f{n} := func(a int) int {{ return a + {m} }}"],
             ["{v}, {v} = {m}, {m}"], ["{v} = obj.g({m}).h"], ["ch <- {m}"], ["{v} = <-ch"], ["b{n} := !({v} < {m}) && {v} == {m}"],
-            ["panic({m})"], ["const c{n} = {m}"], ["{v} = int(float64({m}))"], ["_ = {v}"], ["q{n}, ok := obj.(int)"]],
+            ["panic({m})"], ["const c{n} = {m}"], ["{v} = int(float64({m}))"], ["_ = {v}"], ["q{n}, ok := obj.(int)"], ["t.a++"], ["arr[{m}] += {m}"], ["t.in.b = {m}"], ["*p = {m}"], ["p.a = {m}"],
+            ["{v} = arr[{m}:{m}][{m}]"], ["sl{n} := arr[:{m}:{m}]"], ["{v}, ok{n} := m[\"k\"]"], ["m[\"k\"] = {m}"], ["delete(m, \"k\")"], ["arr = append(arr, {m}, {v})"], ["arr = append(arr, arr...)"], ["{v} = len(arr) + cap(arr)"],
+            ["mk{n} := make([]int, {m}, {m})"], ["mc{n} := make(chan int, {m})"], ["nw{n} := new(T)"], ["st{n} := T{{{m}, \"s\"}}"], ["an{n} := struct {{ a int }}{{{m}}}"], ["ms{n} := map[string][]T{{\"k\": {{{{a: {m}}}}}}}"], ["ar{n} := [...]int{{{m}, 2: {m}}}"],
+            ["var ( va{n} = {m}; vb{n} int )"], ["var fu{n} func(int) (int, error)"], ["var if{n} interface{{}} = {m}"], ["{v} = t.m({m})"], ["{v} = T.m(t, {m})"], ["fv{n} := t.m"], ["{v} = func(a int) int {{ return a * {m} }}({m})"],
+            ["defer func() {{ recover() }}()"], ["go func(a int) {{ mark(a) }}({m})"], ["{v} = {v} &^ {m} << {m} | {m}"], ["{v} = -{v} + ^{m}"], ["b{n} := {v} > {m} || {v} < {m} && !ok"], ["s{n} := \"a\" + `raw {m}` + string(rune({m}))"],
+            ["r{n} := 'x'"], ["c{n} := 1i * {m}"], ["f{n}, g{n} := {m}.5, 0x{m}p-2"], ["return"], ["goto end{n}", "end{n}:"], ["close(ch)"], ["<-ch"], ["{v}, {v} = {v}, {v}"], ["var x{n}, y{n} = {m}, \"s\""], ["type L{n} struct {{ a int }}"], ["type F{n} func(int) int"],
+            ["if {v} > {m} {{ {v} = {m} }}"], ["for {v} < {m} {{ {v}++ }}"], ["e{n} := fmt.Errorf(\"e %d: %w\", {m}, err)"], ["{v} = obj.(T).a"], ["{v} = (*p).a"], ["pp{n} := &arr[{m}]"], ["{v} = mark({m}, arr...)"], ["g{n} := gen[int, string]({m})"], ["const ( ca{n} = iota + {m}; cb{n} )"]],
     compound=[["if {v} < {m} {{", "{b}", "}}"], ["if {v} < {m} {{", "{b}", "}} else {{", "{b}", "}}"],
               ["if k := {m}; k < {v} {{", "{b}", "}} else if {v} == {m} {{", "{b}", "}} else {{", "{b}", "}}"],
               ["for {v} < {m} {{", "{b}", "}}"], ["for i := {m}; i < {m}; i++ {{", "{b}", "}}"], ["for {{", "{b}", "    break", "}}"],
               ["for i, e := range arr {{", "{b}", "}}"], ["switch {v} {{", "case {m}:", "{b}", "    fallthrough", "default:", "{b}", "}}"],
               ["switch {{", "case {v} > {m}:", "{b}", "}}"], ["switch y{n} := obj.(type) {{", "case int:", "{b}", "default:", "{b}", "}}"],
               ["select {{", "case v := <-ch:", "{b}", "default:", "{b}", "}}"], ["func() {{", "{b}", "}}()"],
-              ["lbl{n}:", "for {{", "{b}", "    break lbl{n}", "}}"], ["{{", "{b}", "}}"]],
+              ["lbl{n}:", "for {{", "{b}", "    break lbl{n}", "}}"], ["{{", "{b}", "}}"],
+              ["for i, j := {m}, {m}; i < j; i, j = i+1, j-1 {{", "{b}", "}}"], ["for range arr {{", "{b}", "}}"], ["for k, e := range m {{", "{b}", "}}"], ["for _, e := range []int{{{m}, {m}}} {{", "{b}", "}}"], ["for e := range ch {{", "{b}", "}}"], ["for i := range {m} {{", "{b}", "}}"],
+              ["if e, ok := obj.(error); ok && e != nil {{", "{b}", "}}"], ["if err := mark({m}); err != nil {{", "{b}", "    return", "}}"], ["switch k := {v} + {m}; k {{", "case {m}, {m}:", "{b}", "case {m}:", "default:", "{b}", "}}"],
+              ["switch obj.(type) {{", "case nil:", "{b}", "case int, string:", "{b}", "case *T:", "{b}", "}}"], ["select {{", "case ch <- {m}:", "{b}", "case v, ok := <-ch:", "{b}", "case <-done:", "    return", "}}"], ["select {{}}"],
+              ["outer{n}:", "for {v} < {m} {{", "    for {{", "    {b}", "        continue outer{n}", "    }}", "}}"], ["go func() {{", "{b}", "}}()"], ["defer func() {{", "    if r := recover(); r != nil {{", "    {b}", "    }}", "}}()"],
+              ["f{n} := func(a, b int, c ...string) (r int, err error) {{", "{b}", "    return", "}}"], ["if {v} > {m} {{", "}} else {{", "{b}", "}}"], ["arrF(func(a int) bool {{", "{b}", "    return a > {m}", "}})"]],
     decls=[["var g{n} = {m}"], ["var (", "    ga{n} int = {m}", "    gb{n} = \"s\"", ")"], ["const k{n} = {m}"],
            ["type T{n} struct {{", "    a int", "    b string `json:\"b\"`", "}}"], ["type I{n} interface {{", "    M(a int) int", "}}"],
            ["type A{n} = int"], ["func f{n}(a int, b ...string) (int, error) {{", "    x, y, z := 0, 0, 0", "{b}", "    return a, nil", "}}"],
            ["func (t *T) m{n}(a int) int {{", "    x, y, z := 0, 0, 0", "{b}", "    return a + {m}", "}}"],
-           ["func gen{n}[K comparable, V any](m map[K]V) {{", "{b}", "}}"], ["func init() {{", "{b}", "}}"]],
+           ["func gen{n}[K comparable, V any](m map[K]V) {{", "{b}", "}}"], ["func init() {{", "{b}", "}}"],
+           ["type Emb{n} struct {{", "    T", "    *U", "    a, b int", "    f func(int) error", "    m map[string][]int", "    c chan<- int", "    in struct {{ b int }}", "}}"], ["type Ifc{n} interface {{", "    I", "    M(a int, b ...string) (int, error)", "    ~int | ~string", "}}"],
+           ["type St{n}[T any] struct {{ v []T }}", "func (s *St{n}[T]) Push(v T) {{", "    x, y, z := 0, 0, 0", "{b}", "}}"], ["type En{n} int", "const (", "    A{n} En{n} = iota", "    B{n}", "    _", "    C{n} = \"s\"", ")"],
+           ["func (T) val{n}() {{}}"], ["func mr{n}() (a, b int, err error) {{", "    x, y, z := 0, 0, 0", "{b}", "    return {m}, {m}, nil", "}}"], ["func hof{n}(f func(int) int, g ...func()) func() int {{", "    x, y, z := 0, 0, 0", "{b}", "    return func() int {{ return f({m}) }}", "}}"],
+           ["var fnv{n} = func() int {{ return {m} }}"], ["var arrv{n} = [3]int{{{m}, {m}, {m}}}"], ["var mv{n} = map[string]int{{\"a\": {m}}}", "var sv{n} = []T{{{{a: {m}}}, {{a: {m}}}}}"], ["var pv{n} = &T{{a: {m}}}"], ["var _ I = (*T)(nil)"],
+           ["import (", "    \"os\"", "    str \"strings\"", "    _ \"embed\"", "    . \"math\"", ")"], ["//go:generate x", "// comment {m}", "/* block", "   comment */"]],
     top_simple=[], top_compound=[],
     header=["package main", "import \"fmt\""],
     wrap_main=(["func main{n}() {{", "    x, y, z := 0, 0, 0"], ["}}"]),
@@ -252,25 +344,38 @@ C = Spec(
             ["*p = {m};"], ["printf(\"%d\", {m});"], ["{v}++;"], ["{v} += {m};"], ["ps->a = {m};"], ["{v} = {v} > {m} ? {v} : {m};"],
             ["int a{n}[3] = {{{m}, {m}, {m}}};"], ["struct S t{n} = {{.a = {m}}};"], ["{v} = (int) {m}L;"], ["{v} = sizeof(int) + {m};"],
             [";"], ["{v} = !({v} < {m}) && {v} == {m};"], ["char *str{n} = \"s{m}\";"], ["{v} = obj.g({m});"], ["goto end{n};", "end{n}: ;"],
-            ["{v} = fp({m});"], ["static int st{n} = {m};"], ["unsigned long ul{n} = {m}UL;"]],
+            ["{v} = fp({m});"], ["static int st{n} = {m};"], ["unsigned long ul{n} = {m}UL;"], ["arr[{m}]++;"], ["ps->a += {m};"], ["(*ps).a = {m};"], ["s.in.b = {m};"], ["*(p + {m}) = {v};"], ["p[{m}] = *p + {m};"], ["--{v};"],
+            ["{v} = -{v} + ~{m} * sizeof {v};"], ["{v} = {v} << {m} >> {m} & {m} | {m} ^ {m};"], ["{v} <<= {m}; {v} %= {m};"], ["{v} = ({v}, {m});"], ["{v} = {v} > {m} ? {v} < {m} ? {m} : {m} : {m};"], ["int *q{n} = &arr[{m}], **qq{n} = &q{n};"],
+            ["char c{n} = 'c', nl{n} = '\\n';"], ["float f{n} = 1.5f; double d{n} = {m}e-2;"], ["int m{n}[2][3] = {{{{{m}, {m}}}, {{{m}}}}};"], ["struct S cl{n} = (struct S){{{m}}};"], ["struct {{ int a; }} an{n} = {{{m}}};"], ["int (*fpp{n})(int, char *) = &proto;"],
+            ["{v} = (*fpp)({m}, 0);"], ["{v} = fparr[{m}]({m});"], ["const char *cs{n} = \"a\" \"b{m}\";"], ["void *vp{n} = (void *) p;"], ["{v} = *(int *) vp;"], ["{v} = (int) (long) {m};"], ["enum E e{n} = EA;"], ["typedef int ti{n}; ti{n} tv{n} = {m};"],
+            ["return {v};"], ["int u{n};"], ["int a{n} = {m}, b{n} = a{n} + {m}, *c{n};"], ["if ({v} > {m}) {v} = {m}; else {v} = {m};"], ["for (;;) break;"], ["while ({v} > {m}) {v}--;"], ["do {v}++; while ({v} < {m});"], ["extern int ex{n};"], ["register int r{n} = {m};"],
+            ["volatile const int vc{n} = {m};"], ["{v} = M({m});"], ["{v} = !{v} && {v} || {m};"], ["{v} = obj.f.g[{m}].h;"], ["{v} = ps->next->a;"], ["memset(&s, 0, sizeof(struct S));"], ["{v} = __builtin_expect({v}, {m});"], ["{v} = arr[arr[{m}]];"], ["long long ll{n} = {m}LL; unsigned u{n} = {m}u;"],
+            ["{v} = sizeof(arr) / sizeof(arr[0]);"], ["_Static_assert(sizeof(int) == 4, \"m\");"], ["{v} = _Generic({v}, int: {m}, default: {m});"], ["{v} = ({{ int t = {m}; t; }});"]],
     compound=[["if ({v} < {m}) {{", "{b}", "}}"], ["if ({v} < {m}) {{", "{b}", "}} else {{", "{b}", "}}"],
               ["if ({v} > {m}) {{", "{b}", "}} else if ({v} == {m}) {{", "{b}", "}} else {{", "{b}", "}}"],
               ["while ({v} < {m}) {{", "{b}", "}}"], ["do {{", "{b}", "}} while ({v} < {m});"],
               ["for (int i = {m}; i < {m}; i++) {{", "{b}", "}}"], ["for (;;) {{", "{b}", "    break;", "}}"],
               ["switch ({v}) {{", "    case {m}:", "    {b}", "        break;", "    default:", "    {b}", "}}"], ["{{", "{b}", "}}"],
-              ["#ifdef A{n}", "{b}", "#else", "{b}", "#endif"]],
+              ["#ifdef A{n}", "{b}", "#else", "{b}", "#endif"],
+              ["for (i = {m}, j = {m}; i < j; i++, j--) {{", "{b}", "}}"], ["for (struct S *it = ps; it; it = it->next) {{", "{b}", "}}"], ["switch ({v}) {{", "    case {m}: case {m}:", "    {b}", "    case {m}: {{", "    {b}", "    }}", "}}"], ["switch ({v}) {{ }}"],
+              ["if ({v} > {m}) {{", "}} else {{", "{b}", "}}"], ["while (1) {{", "{b}", "    if ({v} > {m}) break;", "    continue;", "}}"], ["again{n}:", "{b}", "if ({v} < {m}) goto again{n};"], ["#if defined(A) && B > {m}", "{b}", "#elif C", "{b}", "#endif"],
+              ["if ({v}) {{", "{b}", "}} else if ({v} == {m}) {{", "}} else {{", "}}"], ["do {{", "{b}", "    if ({v}) continue;", "}} while (0);"]],
     decls=[["int g{n} = {m};"], ["static const char *gs{n} = \"s\";"], ["struct S{n} {{", "    int a;", "    char b[{m}];", "    struct S{n} *next;", "}};"],
-           ["union U{n} {{ int a; float b; }};"], ["enum E{n} {{ EA{n} = {m}, EB{n} }};"], ["typedef struct {{ int a; }} T{n};"],
+           ["union U{n} {{ int a; float b; }};"], ["enum E{n} {{ EA{n} = {m}, EB{n} }};"], ["enum X{n} {{ XA{n} = {m} + 2, XB{n} = sizeof(int), XC{n} = -1, XD{n} = XA{n} | {m}, XE{n} = (int) {m} }};"], ["typedef struct {{ int a; }} T{n};"],
            ["typedef int (*fp{n})(int);"], ["#define M{n}(a) ((a) + {m})"], ["int proto{n}(int a, char *b);"],
            ["int f{n}(int a, char **b) {{", "    int x = 0, y = 0, z = 0;", "{b}", "    return a;", "}}"],
-           ["static void v{n}(void) {{", "    int x = 0, y = 0, z = 0;", "{b}", "}}"], ["int ga{n}[] = {{{m}, {m}}};"]],
+           ["static void v{n}(void) {{", "    int x = 0, y = 0, z = 0;", "{b}", "}}"], ["int ga{n}[] = {{{m}, {m}}};"],
+           ["struct N{n} {{", "    int a : 3;", "    unsigned b : {m};", "    union {{ int u; float f; }};", "    struct {{ int b; }} in;", "    int (*cb)(struct N{n} *, int);", "    char flex[];", "}};"], ["struct P{n} gp{n} = {{ .a = {m}, .in = {{ .b = {m} }}, .arr = {{ [{m}] = {m} }} }};"],
+           ["typedef struct L{n} {{ struct L{n} *next; int v; }} L{n}_t, *L{n}_p;"], ["typedef enum {{ TA{n}, TB{n} = {m} }} te{n};"], ["typedef union {{ int i; char c[4]; }} tu{n};"], ["extern int ext{n}; extern void extf{n}(void);"],
+           ["static inline int inl{n}(const int *restrict a, int n) {{", "    int x = 0, y = 0, z = 0;", "{b}", "    return a[0];", "}}"], ["int var{n}(int n, ...) {{", "    int x = 0, y = 0, z = 0;", "{b}", "    return n;", "}}"], ["int *retp{n}(void) {{ static int s = {m}; return &s; }}"],
+           ["int (*retfp{n}(int a))(int) {{", "    return 0;", "}}"], ["void kr{n}(a, b) int a; char *b; {{", "}}"], ["int arrp{n}(int a[static {m}], int b[][{m}]) {{ return a[0]; }}"], ["__attribute__((noreturn)) void die{n}(void);"], ["#pragma once", "#undef M{n}", "#line {m}"],
+           ["#define MM{n}(a, ...) do {{ f(a, __VA_ARGS__); }} while (0)", "#define STR{n}(x) #x", "#define CAT{n}(a, b) a##b"], ["#if 0", "int dead{n} = {m};", "#endif"], ["const int tbl{n}[] = {{ {m}, {m}, }};", "char str{n}[] = \"s\";", "char *names{n}[] = {{ \"a\", \"b\" }};"],
+           ["int g1{n}, g2{n} = {m}, *g3{n}, g4{n}[{m}];"], ["/* block {m} */ // line", "int after{n};"], ["_Noreturn void nr{n}(void);"]],
     top_simple=[], top_compound=[],
     header=["#include <stdio.h>", "struct S {{ int a; }};"],
     wrap_main=(["int main{n}(int argc, char **argv) {{", "    int x = 0, y = 0, z = 0, arr[9], *p; struct S s, *ps, obj;"], ["    return 0;", "}}"]),
 )
 
-# `namespace` is produced only by PHP_NAMESPACE templates (step-over of a recorded finding)
-PHP_NAMESPACE = [["namespace App\\M{n};"], ["namespace N{n} {{", "{b}", "}}"]]
 PHP = Spec(
     "php",
     simple=[["mark({m});"], ["${v} = {m};"], ["${v} = ${v} + {m};"], ["$o->f = {m};"], ["${v}[{m}] = ${v};"], ["echo {m};"],
@@ -279,7 +384,14 @@ PHP = Spec(
             ["${v} = Foo::sm({m});"], ["${v} = !(${v} < {m}) && ${v} == {m};"], ["${v} = \"a ${v} {{${v}}} {m}\";"],
             ["list(${v}, ${v}) = [{m}, {m}];"], ["${v} = fn($a) => $a + {m};"], ["unset(${v});"], ["throw new Exception({m});"],
             ["${v} = ${v} ?? {m};"], ["${v} = (int) \"{m}\";"], ["global ${v};"], ["${v} = isset(${v}[{m}]);"], ["${v}[] = {m};"],
-            ["print ${v};"], ["require_once 'a{n}.php';"]],
+            ["print ${v};"], ["require_once 'a{n}.php';"], ["$o->f += {m};"], ["${v}[{m}]++;"], ["Foo::$s = {m};"], ["$o->a->b[{m}]['k'] = ${v};"], ["$o::K;"], ["static::sm({m});"], ["parent::m({m});"], ["${v} = $o?->f?->g({m});"], ["${v} ??= {m};"],
+            ["${v} = ${v} <=> {m};"], ["${v} = ${v} ** {m} % {m};"], ["${v} = -${v} . 's' . {m};"], ["${v} = ${v} and {m} or ${v} xor {m};"], ["${v} = !${v} || ${v} && {m} === ${v};"], ["${v} = ${v} ?: {m};"], ["${v} = ${v} ? (${v} ? {m} : {m}) : {m};"], ["[${v}, [${v}, ${v}]] = ${v};"],
+            ["['a' => ${v}, 'b' => ${v}] = ${v};"], ["${v} = <<<EOT", "text ${v} {{$o->f}} {m}", "EOT;"], ["${v} = <<<'EOT'", "raw {m}", "EOT;"], ["${v} = match(true) {{ ${v} > {m} => {m}, ${v} < {m}, ${v} == {m} => {m}, default => {m} }};"], ["${v} = new class({m}) extends Base {{ public function m() {{ return {m}; }} }};"],
+            ["${v} = clone $o;"], ["${v} = $o instanceof Foo;"], ["${v} = (array) ${v}; ${v} = (string) {m}; ${v} = (bool) ${v};"], ["${v} = \"a{{${v}['k']}}b$o->f {m}\";"], ["${v} = 's' . \"d\" . `ls`;"], ["${v} = $f({m});"], ["${v} = $o->$name({m});"], ["${v} = $$name;"], ["${v} = $o->{{'f' . {m}}};"],
+            ["${v} = Foo::{{$m}}({m});"], ["${v} = call_user_func([$o, 'm'], {m});"], ["${v} = mark(a: {m}, b: ${v});"], ["${v} = mark(...${v});"], ["${v} = mark(...);"], ["${v} = &${v};"], ["${v} = function &() use (&${v}, ${v}) {{ return ${v}; }};"], ["${v} = static fn(int $a): int => $a * {m};"],
+            ["static $st{n} = {m};"], ["echo ${v}, 's', {m};"], ["echo <<<X", "h {m}", "X;"], ["exit({m});"], ["return ${v};"], ["yield {m} => ${v};"], ["${v} = yield from gen();"], ["${v} = isset(${v}, $o->f) && !empty(${v}[{m}]);"], ["unset(${v}[{m}], $o->f);"], ["${v} = @file({m});"],
+            ["${v} = include 'a.php';"], ["${v} = __DIR__ . __LINE__ . PHP_EOL . \\Foo\\BAR;"], ["${v} = \\Ns\\f({m}) + namespace\\g({m});"], ["${v} = new \\Ns\\Cls;"], ["${v} = [{m}, ...${v}, 'k' => [{m}]];"], ["${v} = ${v}[{m}][${v}]['k'] ?? null;"], ["${v} = 0x{m} + 0b101 + 1_000 + 1.5e3 + .5;"],
+            ["if (${v}) ${v} = {m}; else ${v} = {m};"], ["for (;;) break;"], ["while (${v}) ${v}--;"], ["declare(ticks={m});"], ["const LC{n} = {m};"], ["?>", "<p>html <?= ${v} ?> {m}</p>", "<?php"], ["${v} = print({m});"], ["list('a' => ${v}, 'b' => list(${v})) = ${v};"], [";"]],
     compound=[["if (${v} < {m}) {{", "{b}", "}}"], ["if (${v} < {m}) {{", "{b}", "}} else {{", "{b}", "}}"],
               ["if (${v}) {{", "{b}", "}} elseif (${v} == {m}) {{", "{b}", "}} else {{", "{b}", "}}"],
               ["while (${v} < {m}) {{", "{b}", "}}"], ["do {{", "{b}", "}} while (${v} < {m});"],
@@ -288,14 +400,26 @@ PHP = Spec(
               ["switch (${v}) {{", "    case {m}:", "    {b}", "        break;", "    default:", "    {b}", "}}"],
               ["try {{", "{b}", "}} catch (Exception $e) {{", "{b}", "}} finally {{", "{b}", "}}"],
               ["if (${v}):", "{b}", "else:", "{b}", "endif;"], ["while (${v} < {m}):", "{b}", "endwhile;"],
-              ["function inner{n}($a, $b = {m}, ...$c) {{", "{b}", "    return $a;", "}}"]],
+              ["function inner{n}($a, $b = {m}, ...$c) {{", "{b}", "    return $a;", "}}"],
+              ["for ($i = {m}, $j = {m}; $i < $j; $i++, $j--) {{", "{b}", "}}"], ["for ($i = {m}; $i < {m}; $i++):", "{b}", "endfor;"], ["foreach (${v} as $k => &$e) {{", "{b}", "}}"], ["foreach (${v} as [$a, $b]) {{", "{b}", "}}"], ["foreach (${v} as $e):", "{b}", "endforeach;"],
+              ["switch (${v}) {{", "    case {m}: case {m}:", "    {b}", "    case 's': {{", "    {b}", "    }}", "}}"], ["switch (${v}):", "    case {m}:", "    {b}", "        break;", "endswitch;"], ["try {{", "{b}", "}} catch (A | B $e) {{", "{b}", "}} catch (\\Exception) {{", "{b}", "}}"], ["try {{", "{b}", "}} finally {{", "{b}", "}}"],
+              ["if (${v}) {{", "}} else if (${v}) {{", "{b}", "}} else {{", "}}"], ["if (${v}):", "{b}", "elseif (${v} > {m}):", "{b}", "else:", "{b}", "endif;"], ["while (true) {{", "{b}", "    if (${v}) break 1;", "    continue;", "}}"], ["do {{", "{b}", "}} while (${v} < {m});"],
+              ["declare(strict_types=1) {{", "{b}", "}}"], ["{{", "{b}", "}}"], ["array_map(function ($a) use (${v}) {{", "{b}", "    return $a;", "}}, ${v});"], ["$cl{n} = function () {{", "{b}", "}};"], ["if (!function_exists('cf{n}')) {{", "    function cf{n}() {{", "    {b}", "    }}", "}}"]],
     decls=[["function f{n}($a, $b = {m}) {{", "{b}", "    return $a;", "}}"], ["function t{n}(int $a, ?string $b = null): int {{", "{b}", "    return $a;", "}}"],
            ["class C{n} extends Base implements I {{", "    const K = {m};", "    public $a = {m};", "    private static $s = {m};", "    public function __construct($a) {{",
             "        $this->a = $a;", "    {b}", "    }}", "    public function m($x) {{", "    {b}", "        return $this->a + {m};", "    }}",
             "    public static function sm() {{", "    {b}", "        return self::$s;", "    }}", "}}"],
            ["interface I{n} {{", "    public function m($x);", "}}"], ["trait T{n} {{", "    public function tm() {{ return {m}; }}", "}}"],
            ["abstract class AB{n} {{", "    abstract protected function am();", "}}"], ["const GC{n} = {m};"],
-           ["use Foo\\Bar{n} as Baz{n};"]],
+           ["namespace App\\M{n};"], ["namespace N{n} {{", "{b}", "}}"],
+           ["use Foo\\Bar{n} as Baz{n};"], ["use Foo\\{{A{n}, B{n} as C{n}}};", "use function Foo\\fn{n};", "use const Foo\\K{n};"],
+           ["final class Fin{n} extends \\Ns\\Base implements I, \\Countable {{", "    use T1, T2 {{ T1::m insteadof T2; T2::m as protected m2; }}", "    public const A = {m}, B = 's';", "    private ?int $n = null;", "    protected static array $arr = [{m}];", "    public readonly string $ro;", "    var $old;",
+            "    public function __construct(private int $p = {m}, protected ?Foo $q = null, string ...$r) {{", "    {b}", "    }}", "    abstract public function ab();", "    final protected static function fs(int|string $a, ?array &$b = null): ?static {{", "    {b}", "        return null;", "    }}",
+            "    public function __get($n) {{ return $this->$n; }}", "    public function gen(): iterable {{", "        yield {m};", "    {b}", "    }}", "}}"],
+           ["enum Suit{n}: string implements I {{", "    case H = 'h';", "    case S = 's';", "    const D = self::H;", "    public function label(): string {{", "    {b}", "        return $this->value;", "    }}", "}}"],
+           ["interface Ex{n} extends A, B {{", "    const K = {m};", "    public static function sm(int $a): void;", "}}"], ["trait Tr{n} {{", "    use Other;", "    private $tp = {m};", "    abstract function req();", "    public static function ts() {{", "    {b}", "    }}", "}}"],
+           ["#[Attr({m})]", "function attr{n}(#[Sens] $a) {{", "{b}", "}}"], ["function &refret{n}(array &$a, callable $c = null) {{", "{b}", "    return $a;", "}}"], ["function gen{n}() {{", "    $r = yield {m};", "{b}", "    return $r;", "}}"], ["function nev{n}(): never {{ throw new E; }}", "function un{n}(int|float $a, A&B $b): static|null {{}}"],
+           ["define('DC{n}', {m});"], ["declare(strict_types=1);"], ["/** doc {m} */", "# hash comment", "// line"]],
     header=["<?php"],
 )
 
@@ -307,8 +431,49 @@ class Rendered:
         self.lines = []
         self.next_marker = 90001
         self.next_n = 1
+        self.cur_n = 0
         self.top_markers = []       # markers that belong to unit-level executable statements, in source order
         self.labels = set()
+
+
+# Template groups that exercise a recorded (open) finding on VALID input.  While the finding is open the
+# generator leaves the group out (step-over, counted) so that the search continues behind it; one replay file
+# per finding keeps exercising it.  (language, group) -> predicate on the template's text.
+def _has(*needles):
+    return lambda text: any(n in text for n in needles)
+
+
+GROUPS = {
+    "ts-field-or-index-write": ("typescript", _has(".f = ", "] = {v};", ".h = {v};", "this.x = v", ".f += ", "]++;", "--{v}.f", "this.#p = a")),
+    "ts-destructuring-with-key": ("typescript", _has("{{a: p{n}", "({{a: {v}", "{{b, c = {m}}}")),
+    "ts-abstract-class": ("typescript", _has("abstract class")),
+    "ts-new-without-arguments": ("typescript", _has("new Date;")),
+    "ts-catch-without-binding": ("typescript", _has("}} catch {{")),
+    "ts-as-const": ("typescript", _has("as const")),
+    "c-enum-value-expression": ("c", _has("enum X{n}")),
+    "php-namespace": ("php", _has("namespace ")),
+}
+
+
+def _filter(templates, lang, avoid):
+    preds = [GROUPS[g][1] for g in avoid if g in GROUPS and GROUPS[g][0] == lang]
+    if not preds:
+        return list(templates)
+    out = []
+    for t in templates:
+        text = "\n".join(t)
+        if not any(p(text) for p in preds):
+            out.append(t)
+    return out
+
+
+class Pools:
+    def __init__(self, spec, avoid):
+        self.simple = _filter(spec.simple, spec.lang, avoid)
+        self.compound = _filter(spec.compound, spec.lang, avoid)
+        self.decls = _filter(spec.decls, spec.lang, avoid)
+        self.top_simple = _filter(spec.top_simple, spec.lang, avoid)
+        self.top_compound = _filter(spec.top_compound, spec.lang, avoid)
 
 
 def _subst(line, r, draw, vars_, st, note_top):
@@ -340,59 +505,56 @@ def _subst(line, r, draw, vars_, st, note_top):
     return "".join(out)
 
 
-def _emit(template, r, spec, draw, st, indent, depth, top, extra_simple=(), extra_compound=()):
+_DECL_HEADS = ("def ", "class ", "function", "async ", "@", "export ", "abstract ", "interface ", "enum ", "namespace ",
+               "declare ", "type ", "const enum")
+
+
+def _emit(template, r, spec, pools, draw, st, indent, depth, top):
     """Append the lines of one template instance.  `top`: the statement is a unit-level executable statement,
-    so the markers on its own lines (not those of nested bodies of declarations) are top markers."""
+    so the markers on its own lines (not those of nested bodies) are top markers."""
     r.cur_n = r.next_n
     r.next_n += 1
     my_n = r.cur_n
-    is_decl_body = template[0].lstrip().startswith(("def ", "class ", "function", "async ", "@"))
+    is_decl = template[0].lstrip().startswith(_DECL_HEADS)
     for line in template:
         stripped = line.strip()
         if stripped == "{b}":
             extra_indent = line[:len(line) - len(line.lstrip())]
-            _body(r, spec, draw, st, indent + extra_indent + "    ", depth + 1, extra_simple, extra_compound)
+            _body(r, spec, pools, draw, st, indent + extra_indent + "    ", depth + 1)
             r.cur_n = my_n
         else:
-            r.lines.append(indent + _subst(line, r, draw, spec.var, st, top and not is_decl_body))
+            r.lines.append(indent + _subst(line, r, draw, spec.var, st, top and not is_decl))
 
 
-def _body(r, spec, draw, st, indent, depth, extra_simple=(), extra_compound=()):
+def _body(r, spec, pools, draw, st, indent, depth):
     n = draw(st.integers(0, 3 if depth < 3 else 1))
     if n == 0:
         r.labels.add("empty_body")
         if spec.empty_body:
             r.lines.append(indent + spec.empty_body)
         return
-    simple = list(spec.simple) + list(extra_simple)
-    compound = list(spec.compound) + list(extra_compound)
     for _ in range(n):
         if depth < 3 and draw(st.integers(0, 9)) < 4:
             r.labels.add("nested_compound" if depth >= 1 else "compound")
-            _emit(draw(st.sampled_from(compound)), r, spec, draw, st, indent, depth, False, extra_simple, extra_compound)
+            _emit(draw(st.sampled_from(pools.compound)), r, spec, pools, draw, st, indent, depth, False)
         else:
-            _emit(draw(st.sampled_from(simple)), r, spec, draw, st, indent, depth, False, extra_simple, extra_compound)
+            _emit(draw(st.sampled_from(pools.simple)), r, spec, pools, draw, st, indent, depth, False)
 
 
 def generate_program(lang, draw, st, avoid=()):
-    """Returns (text, top_markers, labels).  `avoid`: names of template groups to leave out (step-overs)."""
+    """Returns (text, top_markers, labels).  `avoid`: names of template GROUPS to leave out (step-overs)."""
     spec = SPECS[lang]
+    pools = Pools(spec, avoid)
     r = Rendered()
-    extra_simple, extra_compound, extra_decls = [], [], []
-    if lang == "typescript" and "ts-field-write" not in avoid:
-        extra_simple = TS_FIELD_WRITE
-    if lang == "php" and "php-namespace" not in avoid:
-        extra_decls = PHP_NAMESPACE
     for h in spec.header:
         r.lines.append(h.replace("{{", "{").replace("}}", "}"))
     n_items = draw(st.integers(1, 7))
     for _ in range(n_items):
-        k = draw(st.integers(0, 9))
-        has_top = bool(spec.top_simple or extra_simple and not spec.wrap_main)
+        k = draw(st.sampled_from([0, 1, 2, 3, 4, 5, 6, 7, 8, 9]))
+        has_top = bool(pools.top_simple)
         if k < 3 or not (has_top or spec.wrap_main):
             r.labels.add("decl")
-            t = draw(st.sampled_from(list(spec.decls) + extra_decls))
-            _emit(t, r, spec, draw, st, "", 0, False, extra_simple, extra_compound)
+            _emit(draw(st.sampled_from(pools.decls)), r, spec, pools, draw, st, "", 0, False)
         elif spec.wrap_main:
             r.labels.add("wrapped_main")
             op, cl = spec.wrap_main
@@ -403,18 +565,16 @@ def generate_program(lang, draw, st, avoid=()):
             for line in op:
                 r.lines.append(_subst(line, r, draw, spec.var, st, False))
                 ind = line[:len(line) - len(line.lstrip())] + "    "
-            _body(r, spec, draw, st, ind, 1, extra_simple, extra_compound)
+            _body(r, spec, pools, draw, st, ind, 1)
             r.cur_n = my_n
             for line in cl:
                 r.lines.append(_subst(line, r, draw, spec.var, st, False))
         elif k < 6:
             r.labels.add("top_compound")
-            t = draw(st.sampled_from(list(spec.top_compound) + list(extra_compound)))
-            _emit(t, r, spec, draw, st, "", 0, True, extra_simple, extra_compound)
+            _emit(draw(st.sampled_from(pools.top_compound)), r, spec, pools, draw, st, "", 0, True)
         else:
             r.labels.add("top_simple")
-            t = draw(st.sampled_from(list(spec.top_simple) + list(extra_simple)))
-            _emit(t, r, spec, draw, st, "", 0, True, extra_simple, extra_compound)
+            _emit(draw(st.sampled_from(pools.top_simple)), r, spec, pools, draw, st, "", 0, True)
     for f in spec.footer:
         r.lines.append(f)
     return "\n".join(r.lines) + "\n", r.top_markers, sorted(r.labels)
@@ -489,7 +649,8 @@ def mutate_once(data, lang, draw, st, op, other=None):
         if n == 0:
             return data
         i = draw(st.integers(0, n - 1))
-        b = draw(st.one_of(st.sampled_from(list(b"(){}[];,.:=<>+-*/%&|!?\"'`\\#@$ \n\t0aZ_")), st.integers(0, 255)))
+        b = draw(st.one_of(st.sampled_from(list(b"(){}[];,.:=<>+-*/%&|!?\"'`\\#@$ \n\t0aZ_")), st.integers(32, 126),
+                           st.sampled_from(list(b"(){}[];,.:=<>\"' \n")), st.integers(0, 255)))
         return data[:i] + bytes([b]) + data[i + 1:]
     if op == "insert_bytes":
         i = draw(st.integers(0, n))
